@@ -9,11 +9,12 @@
    C08's subject); the model tracks what the sequencing depends on: the DNS id of the latest query
    (chunkid), the command letter it carried, and the number of queries sent.
 
-   handshake_login uses the reply parser and the command builder of Shell.v (C13); client_handshake is
-   modelled for raw_mode = 0 (the -r path: no raw-UDP attempt).  Not modelled here: handshake_raw_udp. *)
+   handshake_login uses the reply parser and the command builder of Shell.v (C13); handshake_raw_udp asks for
+   the server address over DNS and then takes whatever datagram arrives next as the answer to each of its four
+   raw logins (it has no notion of an unfitting reply), accepting only login(seed - 1) (LoginGlue.v / Login.v). *)
 From Coq Require Import List NArith ZArith Arith Bool.
 From RecordUpdate Require Import RecordUpdate.
-From Iodine Require Import Generated.SrcConsts Base DnsName DnsMsg Negotiate LoginGlue Shell.
+From Iodine Require Import Generated.SrcConsts Base DnsName DnsMsg Negotiate Login LoginGlue Shell.
 Import ListNotations.
 Local Open Scope N_scope.
 
@@ -42,10 +43,12 @@ Record hs := mkhs {
   h_down : N;         (* downenc (a character; 32 = not chosen) *)
   h_edns : bool;      (* dnsc_use_edns0 *)
   h_ifname : list N;  (* if_name of tun.c *)
-  h_sys : list (list N)   (* arguments of system(), in order *)
+  h_sys : list (list N);  (* arguments of system(), in order *)
+  h_pass : list N;    (* the password buffer (32 bytes) *)
+  h_dns : bool        (* conn == CONN_DNS_NULL *)
 }.
 #[export] Instance eta_hs : Settable _ := settable! mkhs <h_cid; h_lastc; h_q; h_qtype; h_uid; h_seed; h_up; h_lazy; h_st;
-  h_down; h_edns; h_ifname; h_sys>.
+  h_down; h_edns; h_ifname; h_sys; h_pass; h_dns>.
 
 Definition next_chunkid (id : N) : N :=
   let v := (id + 7727) mod 65536 in if v =? 0 then 7727 else v.
@@ -322,8 +325,46 @@ Definition login_body : M (option (option Z)) :=
   end.
 Definition hs_login : M (option Z) := attempts 5 login_body (ret (Some 1%Z)).
 
-(* client_handshake(dns_fd, raw_mode = 0, autodetect_frag_size, fragsize): Some rv, or None for errx *)
-Definition hs_full (autofrag : bool) (fragsize : N) : M (option Z) :=
+(* handshake_raw_udp(seed): 1 = the server answered the raw login, 0 = stay in DNS mode.
+   First the 'i' query for the server's address (3 attempts); then up to 4 raw logins, each followed by ONE
+   select(): a time-out, or any datagram, which is the answer or is not. *)
+Definition rawip_body : M (option bool) :=
+  r <- ask 105 73 cap_full ;;
+  match r with
+  | WRead buf =>
+      if ((length buf =? 5)%nat || (length buf =? 17)%nat) && (nth 0 buf 0 =? 73) then ret (Some true) else ret None
+  | _ => ret None
+  end.
+
+(* send_raw_udp_login: a datagram to the raw address (no DNS id is consumed) *)
+Definition send_raw : M unit := modify (fun s => s <| h_q := h_q s + 1 |>).
+
+Definition raw_wait : M (option (list N)) :=
+  fun s l => match l with
+             | [] => (None, s, [])
+             | IT :: r => (None, s, r)
+             | ID m d :: r => (Some (firstn cap_full (subst m (h_cid s) (h_lastc s) d)), s, r)
+             end.
+
+Definition raw_login_ok (pass : list N) (seed : Z) (d : list N) : bool :=
+  (20 <=? length d)%nat && Negotiate.list_eqb (firstn 3 d) (firstn 3 src_raw_header) &&
+  (N.land (nth 3 d 0) src_RAW_HDR_CMD_MASK =? src_RAW_HDR_CMD_LOGIN) && cli_raw_accepts pass seed (skipn 4 d).
+
+Definition rawlogin_body (seed : Z) : M (option bool) :=
+  send_raw ;;;
+  d <- raw_wait ;;
+  s <- get ;;
+  match d with
+  | Some dg => if raw_login_ok (h_pass s) seed dg then ret (Some true) else ret None
+  | None => ret None
+  end.
+
+Definition hs_raw_udp (seed : Z) : M bool :=
+  got <- attempts 3 rawip_body (ret false) ;;
+  if got then attempts 4 (rawlogin_body seed) (ret false) else ret false.
+
+(* client_handshake(dns_fd, raw_mode, autodetect_frag_size, fragsize): Some rv, or None for errx *)
+Definition hs_full (rawmode autofrag : bool) (fragsize : N) : M (option Z) :=
   modify (fun s => s <| h_edns := false |>) ;;;
   s <- get ;;
   r0 <- (if h_qtype s =? T_UNSET then hs_qtype_auto else ret 0%Z) ;;
@@ -334,6 +375,9 @@ Definition hs_full (autofrag : bool) (fragsize : N) : M (option Z) :=
   match r2 with
   | None => ret None
   | Some 0%Z =>
+      sv <- get ;;
+      raw <- (if rawmode then hs_raw_udp (h_seed sv) else ret false) ;;
+      if raw then modify (fun s => s <| h_dns := false |> <| h_st := 20 |>) ;;; ret (Some 0%Z) else
       modify (fun s => s <| h_edns := true |>) ;;;
       e <- hs_downenctest ;;
       modify (fun s => s <| h_edns := e |>) ;;;
@@ -358,7 +402,7 @@ Definition hs_full (autofrag : bool) (fragsize : N) : M (option Z) :=
 Inductive stepname :=
 | SVersion | SEdns0 | SUpenctest (pat : list N) | SUpencAuto | SDownenctest | SDownencAuto | SQtypetest | SQtypeAuto
 | SSwitchCodec (bits : N) | SSwitchDownenc | STryLazy | SLazyoff | SAutoprobe | SSetFragsize
-| SLogin | SFull (autofrag : bool) (fragsize : N).
+| SLogin | SFull (rawmode autofrag : bool) (fragsize : N) | SRawUdp (seed : Z).
 
 Definition upres_rv (u : upres) : Z := match u with UpSwap => (-1)%Z | UpFail => 0%Z | UpPass => 1%Z end.
 Definition bool_rv (b : bool) : Z := if b then 1%Z else 0%Z.
@@ -381,9 +425,10 @@ Definition run_step (st : stepname) : M (option Z) :=
   | SAutoprobe => n <- hs_autoprobe ;; ret (Some (Z.of_N n))
   | SSetFragsize => hs_set_fragsize ;;; ret (Some 0%Z)
   | SLogin => hs_login
-  | SFull autofrag fragsize => hs_full autofrag fragsize
+  | SFull rawmode autofrag fragsize => hs_full rawmode autofrag fragsize
+  | SRawUdp seed => b <- hs_raw_udp seed ;; ret (Some (bool_rv b))
   end.
 
-Definition hs_init (cid qtype : N) (uid seed : Z) (lazy : bool) (down : N) (ifname : list N) : hs :=
+Definition hs_init (cid qtype : N) (uid seed : Z) (lazy : bool) (down : N) (ifname pass : list N) : hs :=
   {| h_cid := cid; h_lastc := 0; h_q := 0; h_qtype := qtype; h_uid := uid; h_seed := seed; h_up := 0;
-     h_lazy := lazy; h_st := 4; h_down := down; h_edns := false; h_ifname := ifname; h_sys := [] |}.
+     h_lazy := lazy; h_st := 4; h_down := down; h_edns := false; h_ifname := ifname; h_sys := []; h_pass := pass; h_dns := true |}.
